@@ -30,6 +30,43 @@ struct World {
     ba: Proxy,
     rng: StdRng,
     deadline: Duration,
+    paused: std::collections::HashSet<(String, String)>,
+}
+
+/// What the driver believes node `n` currently thinks, derived from the log (only used to decide how
+/// long to wait; the verdict is TLC's).
+struct View {
+    conns: i64,
+    up: std::collections::HashMap<String, bool>,
+    dials_started: usize,
+    dials_concluded: usize,
+}
+
+fn view(l: &[Value], n: &str, protos: &[String]) -> View {
+    let mut v = View { conns: 0, up: protos.iter().map(|q| (q.clone(), false)).collect(), dials_started: 0, dials_concluded: 0 };
+    for e in l {
+        if e["n"] != n {
+            continue;
+        }
+        let q = e["q"].as_str().unwrap_or("").to_string();
+        match e["e"].as_str().unwrap_or("") {
+            "app_est" => {
+                v.conns += 1;
+                if e["dir"] == "out" {
+                    v.dials_concluded += 1;
+                }
+            }
+            "app_closed" => v.conns = 0,
+            "app_dial_failure" => v.dials_concluded += 1,
+            "dial_ret" if e["ret"] == "ok" => v.dials_started += 1,
+            "redial" if e["ok"] == true && e["attempted"] == true => v.dials_started += 1,
+            "p_est" => { v.up.insert(q, true); }
+            "p_closed" => { v.up.insert(q, false); }
+            "p_exit" | "p_none" => { v.up.remove(&q); }
+            _ => {}
+        }
+    }
+    v
 }
 
 fn ms(v: &Value, k: &str, d: u64) -> Duration {
@@ -72,25 +109,16 @@ impl World {
         self.ab.all_dead() && self.ba.all_dead()
     }
 
-    /// what the driver believes each observer of node `n` currently thinks (only used to stop
-    /// waiting early; the verdict is TLC's)
     fn settled(l: &[Value], n: &str, protos: &[String]) -> bool {
-        let mut conns = 0i64;
-        let mut up: std::collections::HashMap<&str, bool> = protos.iter().map(|q| (q.as_str(), false)).collect();
-        for v in l {
-            if v["n"] != n {
-                continue;
-            }
-            match v["e"].as_str().unwrap_or("") {
-                "app_est" => conns += 1,
-                "app_closed" => conns = 0,
-                "p_est" => { up.insert(v["q"].as_str().unwrap(), true); }
-                "p_closed" => { up.insert(v["q"].as_str().unwrap(), false); }
-                "p_exit" | "p_none" => { up.remove(v["q"].as_str().unwrap()); }
-                _ => {}
-            }
-        }
-        conns == 0 && up.values().all(|x| !*x)
+        let v = view(l, n, protos);
+        v.conns == 0 && v.up.values().all(|x| !*x) && v.dials_concluded >= v.dials_started
+    }
+
+    /// every running protocol of `n` that is being polled has recorded `established`
+    fn all_up(&self, l: &[Value], n: &str) -> bool {
+        let protos: Vec<String> = self.node(n).protos.keys().cloned().collect();
+        let v = view(l, n, &protos);
+        v.up.iter().all(|(q, up)| *up || self.paused.contains(&(n.to_string(), q.clone())))
     }
 
     async fn wait_connect(&self, from: &str, mark: usize, cut: bool) -> (bool, bool) {
@@ -101,19 +129,23 @@ impl World {
         let _ = streams_before;
         let has = |l: &[Value], e: &str, n: &str| l.iter().skip(mark).any(|v| is(v, e) && v["n"] == n);
         let pxname = px.name.clone();
+        let done = |l: &[Value]| {
+            let est_from = has(l, "app_est", from);
+            let est_to = has(l, "app_est", to);
+            (est_from && self.all_up(l, from)) && (!to_alive || (est_to && self.all_up(l, to)))
+        };
         self.log
             .wait(self.deadline, |l| {
-                let est_from = has(l, "app_est", from);
-                let est_to = has(l, "app_est", to);
                 let fail = has(l, "app_dial_failure", from);
                 // the stream(s) of this attempt ended already (one side refused / rolled back / cut)
                 let acc = l.iter().skip(mark).filter(|v| is(v, "px_accept") && v["px"] == pxname.as_str()).count();
                 let dead = l.iter().skip(mark).filter(|v| is(v, "px_dead") && v["px"] == pxname.as_str()).count();
-                (est_from && (est_to || !to_alive)) || fail || (acc > 0 && dead >= acc && (est_from || est_to || cut))
+                done(l) || fail || (acc > 0 && dead >= acc && (has(l, "app_est", from) || has(l, "app_est", to) || cut))
             })
             .await;
-        // a late report of the other side gets a short grace period
-        tokio::time::sleep(Duration::from_millis(if cut { 300 } else { 60 })).await;
+        // a late report gets a grace period (long when the attempt ended without everybody having reported)
+        let complete = self.log.with(|l| done(l));
+        tokio::time::sleep(Duration::from_millis(if complete { 20 } else { 500 })).await;
         self.log.with(|l| (has(l, "app_est", from), has(l, "app_est", to)))
     }
 
@@ -176,11 +208,19 @@ impl World {
                         })
                     })
                     .await;
-                tokio::time::sleep(Duration::from_millis(400)).await;
+                // then everybody who is going to report gets time to do so
+                self.log.wait(Duration::from_millis(1500), |l| ["A", "B"].iter().all(|x| self.all_up(l, x) && l.iter().skip(mark).any(|v| is(v, "app_est") && v["n"] == *x))).await;
+                tokio::time::sleep(Duration::from_millis(200)).await;
                 let cnt = |n: &str, dir: &str| self.log.count_from(mark, |v| is(v, "app_est") && v["n"] == n && v["dir"] == dir);
                 let live = self.ab.live().len() + self.ba.live().len();
                 self.log.push(json!({"e": "conn2_result", "a_out": cnt("A", "out"), "a_in": cnt("A", "in"), "b_out": cnt("B", "out"), "b_in": cnt("B", "in"), "live": live}));
-                if live == 0 {
+                if st["expect"].as_bool().unwrap_or(false) {
+                    for (x, y) in [("A", "B"), ("B", "A")] {
+                        let mine = cnt(x, "in") + cnt(x, "out") > 0;
+                        let theirs = cnt(y, "in") + cnt(y, "out") > 0;
+                        self.log.push(json!({"e": "newconn", "n": x, "app": mine, "qs": [], "must": theirs}));
+                    }
+                } else if live == 0 {
                     return Err("simultaneous dial left no connection".into());
                 }
             }
@@ -233,6 +273,11 @@ impl World {
             "pause" | "resume" => {
                 let q = st["q"].as_str().unwrap_or("q2");
                 self.log.push(json!({"e": op, "n": n, "q": q}));
+                if op == "pause" {
+                    self.paused.insert((n.clone(), q.to_string()));
+                } else {
+                    self.paused.remove(&(n.clone(), q.to_string()));
+                }
                 self.node(&n).cmd(q, if op == "pause" { ProtoCmd::Pause } else { ProtoCmd::Resume }).await;
             }
             "open" => {
@@ -302,6 +347,7 @@ impl World {
                         }
                     }
                 }
+                self.paused.clear();
                 let alive: Vec<(String, Vec<String>)> =
                     ["A", "B"].iter().filter(|x| self.node(x).alive).map(|x| (x.to_string(), self.node(x).protos.keys().cloned().collect())).collect();
                 let al = alive.clone();
@@ -317,6 +363,9 @@ impl World {
                 *px.policy.lock().unwrap() = Policy::default();
                 let before = px.accepted.load(std::sync::atomic::Ordering::SeqCst);
                 let mark = self.log.len();
+                // the probe is only meaningful when no earlier dial of this node is still unresolved
+                let protos: Vec<String> = self.node(&n).protos.keys().cloned().collect();
+                let clean = self.log.with(|l| { let v = view(l, &n, &protos); v.dials_concluded >= v.dials_started });
                 // the probing node may only ever have been the listener: give it the address to dial
                 let _ = self.node(&n).app.send(netcommon::node::AppCmd::AddKnown { peer: self.node(to).peer, addr: Node::addr_via(px.listen, self.node(to).peer) }).await;
                 self.log.push(json!({"e": "redial_begin", "n": n}));
@@ -331,7 +380,7 @@ impl World {
                 } else {
                     false
                 };
-                self.log.push(json!({"e": "redial", "n": n, "ret": if ret.is_ok() { "ok".to_string() } else { ret.clone().unwrap_err() }, "ok": ret.is_ok(), "attempted": attempted}));
+                self.log.push(json!({"e": "redial", "n": n, "ret": if ret.is_ok() { "ok".to_string() } else { ret.clone().unwrap_err() }, "ok": ret.is_ok(), "attempted": attempted, "clean": clean}));
                 if attempted && self.node(to).alive {
                     let est = self.wait_connect(&n, mark, false).await;
                     self.log.push(json!({"e": "conn_result", "from": n, "est_from": est.0, "est_to": est.1}));
@@ -355,7 +404,7 @@ async fn run_scenario(sc: &Value) -> (Vec<Value>, f64, Option<String>) {
     let b = Node::start(&node_cfg("B", &sc["B"], seed), log.clone());
     let ab = Proxy::start("ab", b.listen, log.clone()).await;
     let ba = Proxy::start("ba", a.listen, log.clone()).await;
-    let mut w = World { log: log.clone(), a, b, ab, ba, rng: StdRng::seed_from_u64(seed), deadline: ms(sc, "deadline_ms", 10_000) };
+    let mut w = World { log: log.clone(), a, b, ab, ba, rng: StdRng::seed_from_u64(seed), deadline: ms(sc, "deadline_ms", 10_000), paused: Default::default() };
     let mut why = None;
     for st in sc["steps"].as_array().unwrap() {
         log.push(json!({"e": "step", "op": st["op"], "arg": st}));
